@@ -97,6 +97,51 @@ Proof.
   destruct (split c s); [congruence | reflexivity].
 Qed.
 
+(** [rsplit(c, 1)] / [rpartition(c)] against the model's [split]: same last segment. *)
+Lemma py_rsplit1_go_char c s :
+  match py_rsplit1_go (String c EmptyString) s with
+  | Some (h, t) => exists l, split c s = (l ++ [t])%list /\ l <> []
+  | None => split c s = [s]
+  end.
+Proof.
+  induction s as [|a r IH].
+  - reflexivity.
+  - cbn [py_rsplit1_go split String.prefix String.length str_drop].
+    destruct (py_rsplit1_go (String c EmptyString) r) as [[h t]|].
+    + destruct IH as (l & E & NE). rewrite E.
+      destruct (Ascii.eqb a c).
+      * exists (EmptyString :: l). split; [reflexivity | discriminate].
+      * destruct l as [|h' l']; [congruence|]. exists (String a h' :: l'). split; [reflexivity | discriminate].
+    + rewrite IH. destruct (ascii_dec c a) as [->|n].
+      * rewrite Ascii.eqb_refl. assert (E : String.prefix EmptyString r = true) by (destruct r; reflexivity).
+        rewrite E. exists [EmptyString]. split; [reflexivity | discriminate].
+      * assert (E : Ascii.eqb a c = false) by (apply Ascii.eqb_neq; congruence). rewrite E. reflexivity.
+Qed.
+
+Lemma py_rsplit1_last c s :
+  List.last (py_rsplit1 s (String c EmptyString)) EmptyString = List.last (split c s) EmptyString.
+Proof.
+  unfold py_rsplit1. pose proof (py_rsplit1_go_char c s) as H.
+  destruct (py_rsplit1_go (String c EmptyString) s) as [[h t]|].
+  - destruct H as (l & E & _). rewrite E, last_last. reflexivity.
+  - rewrite H. reflexivity.
+Qed.
+
+Lemma py_rsplit1_last_slash s : List.last (py_rsplit1 s "/") "" = List.last (segs_of s) "".
+Proof. apply py_rsplit1_last. Qed.
+
+Lemma py_rpartition_last c s :
+  snd (snd (py_rpartition s (String c EmptyString))) = List.last (split c s) EmptyString.
+Proof.
+  unfold py_rpartition. pose proof (py_rsplit1_go_char c s) as H.
+  destruct (py_rsplit1_go (String c EmptyString) s) as [[h t]|].
+  - destruct H as (l & E & _). rewrite E, last_last. reflexivity.
+  - rewrite H. reflexivity.
+Qed.
+
+Lemma py_rpartition_last_slash s : snd (snd (py_rpartition s "/")) = List.last (segs_of s) "".
+Proof. apply py_rpartition_last. Qed.
+
 Lemma py_split_slash s : py_split s "/" = segs_of s.
 Proof. apply py_split_char. Qed.
 
@@ -188,7 +233,9 @@ Lemma N3_cmp_ok : cmp_ok (pcmp N.compare (pcmp N.compare N.compare)).
 Proof. apply pcmp_ok; [apply N_cmp_ok | apply pcmp_ok; apply N_cmp_ok]. Qed.
 
 #[export] Hint Rewrite py_startswith_eq py_contains_eq py_find_ge0 py_find_gtm1 py_find_lt0
-  py_find_lem1 py_find_eqm1 py_find_m1eq py_split_slash py_join_slash py_slice_from_len : pynorm.
+  py_find_lem1 py_find_eqm1 py_find_m1eq py_split_slash py_join_slash py_slice_from_len
+  py_rsplit1_last_slash py_rpartition_last_slash : pynorm.
+#[export] Hint Rewrite @last_last : pynorm.
 
 (** ** [py_atoms]: decide an equation between boolean combinations of atomic tests.
 
